@@ -673,12 +673,35 @@ def _r7_switch_histories(ctx):
     events_log = []
     this = Obj("this", {"state": {}}, closed=True)
 
+    def mode_externals():
+        def cfg_update(a2, k2):
+            if a2 and isinstance(a2[0], str):
+                modes[a2[0]] = a2[1] if len(a2) > 1 else None
+                return None
+            raise NotHandled()
+        return {"__strict__": False, "update": cfg_update, "set_default_dtype": lambda a2, k2: modes.__setitem__("torch_default_dtype", str(getattr(a2[0], "name", a2[0]))),
+                "set_floatx": lambda a2, k2: modes.__setitem__("tf_floatx", a2[0]),
+                **{nm_: (lambda a2, k2, nm_=nm_: modes.__setitem__(nm_, a2[0] if a2 else None)) for nm_ in ("set_flush_denormal", "set_float32_matmul_precision", "enable_tensor_float_32_execution")}}
+
     def backend_ctor(name):
         def f(a, k):
             unknown = set(k) - {"precision"}
             if unknown or a:
                 raise RaisedInFragment("TypeError")
-            return mk(name, k.get("precision", "64b"))
+            obj = mk(name, k.get("precision", "64b"))
+            # the class's own constructor, for what it does to process-wide modes (merely CONSTRUCTING a backend object is
+            # something user code and pyhf itself do without activating it)
+            rel_, cname_ = BACKEND_CLASSES[name]
+            init = repo.cls(rel_, cname_).methods.get("__init__")
+            if init is not None:
+                ctx.touch(init)
+                from ..alg import Interp
+                try:
+                    Interp({"kwargs": dict(k), "torch": Obj("torch"), "config": Obj("config"), "tf": Obj("tf"), "np": Obj("np"), "jnp": Obj("jnp")}, {}, {}, cls_name=cname_, externals=mode_externals()).run(A.strip_docstring(init.node.body))
+                except Undecided as e:
+                    if any(A.call_attr(c_) in ("update", "set_default_dtype", "set_floatx", "set_flush_denormal") for c_ in A.calls_in(init.node)):
+                        raise Undecided(f"{cname_}.__init__ switches a process-wide mode in a way that is not interpretable: {e}")
+            return obj
         return PyFunc(f, f"{name}_backend")
 
     def opt_ctor(name):
@@ -746,15 +769,21 @@ def _r7_switch_histories(ctx):
         ("OBJECT:pytorch:64b", {"precision": "32b"}, ("pytorch", "32b")),  # same name, the OBJECT says 64b, the keyword wins: a precision-only change
         ("tensorflow", {"precision": "32b"}, ("tensorflow", "32b")),
         ("tensorflow", {"precision": "64b"}, ("tensorflow", "64b")), ("numpy", {"precision": "32b"}, ("numpy", "32b")), ("numpy", {}, ("numpy", "64b")),
+        ("jax", {}, ("jax", "64b")), ("CONSTRUCT:jax:32b", {}, ("jax", "64b")), ("pytorch", {}, ("pytorch", "64b")), ("CONSTRUCT:pytorch:32b", {}, ("pytorch", "64b")),
     ]
     for step, (arg, kw, want) in enumerate(history):
         before = this.attrs["state"]["current"][0]
         prev = (before.attrs["name"], before.attrs["precision"])
         label = f"step {step + 1}: set_backend({arg.split(':')[1] + ' backend object (' + arg.split(':')[2] + ')' if arg.startswith('OBJECT') else repr(arg)}{''.join(', %s=%r' % kv for kv in kw.items())}) after {prev[0]} {prev[1]}"
         del events_log[:]
+        if arg.startswith("CONSTRUCT"):
+            label = f"step {step + 1}: a {arg.split(':')[1]} backend object with precision {arg.split(':')[2]} is constructed and NOT activated while {prev[0]} {prev[1]} is current"
         a0 = mk(*arg.split(":")[1:]) if arg.startswith("OBJECT") else arg
         try:
-            w.call_func(sb, [a0], dict(kw))
+            if arg.startswith("CONSTRUCT"):
+                br.attrs[f"{arg.split(':')[1]}_backend"].f([], {"precision": arg.split(":")[2]})
+            else:
+                w.call_func(sb, [a0], dict(kw))
         except RaisedInFragment as e:
             ctx.violated(r7, sb, label, f"a valid switch raises {e.exc_name}", expected=f"current backend {want}")
             continue
@@ -768,7 +797,8 @@ def _r7_switch_histories(ctx):
         final_modes = dict(modes)
         # what the CURRENT backend's own setup establishes (run once more on top: a no-op when it already ran last)
         try:
-            setup(cur, [], {})
+            br.attrs[f"{cur.attrs['name']}_backend"].f([], {"precision": cur.attrs["precision"]})  # what constructing ...
+            setup(cur, [], {})  # ... and setting up the backend now in force establishes
         except errs as e:
             ctx.unrecognised(r7, sb, label, f"_setup not interpretable: {type(e).__name__}: {e}")
             return
@@ -777,7 +807,7 @@ def _r7_switch_histories(ctx):
             ctx.violated(r7, sb, label, f"the current backend after the call is {got}", expected=str(want), found=str(got))
         elif own_modes != final_modes:
             diff = sorted(k_ for k_ in own_modes if own_modes.get(k_) != final_modes.get(k_))
-            ctx.violated(r7, sb, label, f"after the call the process-wide setup `{diff[0]}` is {final_modes.get(diff[0])}, the backend now in force sets it to {own_modes.get(diff[0])}: the library-global setup was run for ANOTHER backend object (an earlier one, before the precision keyword re-created it) or not at all", expected=str({k_: own_modes[k_] for k_ in diff}), found=str({k_: final_modes.get(k_) for k_ in diff}))
+            ctx.violated(r7, sb, label, f"afterwards the process-wide setup `{diff[0]}` is {final_modes.get(diff[0])}, the backend in force sets it to {own_modes.get(diff[0])}: the library-global setup was made for ANOTHER backend object (one re-created by the precision keyword, or one that was only constructed) or not at all -- the current backend computes at another width than it is configured for", expected=str({k_: own_modes[k_] for k_ in diff}), found=str({k_: final_modes.get(k_) for k_ in diff}))
         elif should and not fired:
             ctx.violated(r7, sb, label, f"the backend changed from {prev} to {want} and 'tensorlib_changed' is not triggered: every model, interpolator and viewer alive keeps tensors of the previous backend / precision", expected="one trigger", found="none")
         elif not should and fired:
